@@ -311,14 +311,19 @@ func (p c02) Run(w *mon.Worker, idx int) mon.Result {
 			// compound assignment for several context nodes: each node gets `own value op e`, once
 			op := []string{"+", "-", "*"}[r.IntN(3)]
 			ev := int64(1 + r.IntN(5))
+			evs := fmt.Sprint(ev)
+			ownB := r.IntN(2) == 0 // the right-hand side reads the context node itself (`.b`): every node has its own
+			if ownB {
+				evs = ".b"
+			}
 			var cexpr string
 			switch r.IntN(3) {
 			case 0:
-				cexpr = fmt.Sprintf(".items[] | .a %s= %d", op, ev)
+				cexpr = fmt.Sprintf(".items[] | .a %s= %s", op, evs)
 			case 1:
-				cexpr = fmt.Sprintf(".items[] | select(.b > 0) | .a %s= %d", op, ev)
+				cexpr = fmt.Sprintf(".items[] | select(.b > 0) | .a %s= %s", op, evs)
 			default:
-				cexpr = fmt.Sprintf(".items | map(.a %s= %d) | .[]", op, ev)
+				cexpr = fmt.Sprintf(".items | map(.a %s= %s) | .[]", op, evs)
 			}
 			cs["expr"], cs["doc"] = cexpr, d2.JSON()
 			res.Sig = fmt.Sprintf("ctxcompound|%s|%d", cexpr, n)
@@ -333,6 +338,10 @@ func (p c02) Run(w *mon.Worker, idx int) mon.Result {
 			for i, it := range items.A {
 				av, _ := it.Get("a")
 				val := av.I.Int64()
+				if ownB {
+					bv, _ := it.Get("b")
+					ev = bv.I.Int64()
+				}
 				switch op {
 				case "+":
 					val += ev
